@@ -185,6 +185,8 @@ class Run:
             r = call(e.add_child, junk)
         elif k == 'read':
             r = call(getattr, e, op[1])
+        elif k == 'set_check':
+            r = call(setattr, e, 'xsd_check', bool(op[1]))
         elif k == 'set_raw':
             r = call(setattr, e, op[1], op[2])
         elif k == 'copy_discard':
